@@ -8,8 +8,9 @@ use quote::{format_ident, quote};
 use crate::{
     convert::STD_NUM_NONZERO_PREFIX,
     type_entry::{
-        EnumTagType, StructProperty, StructPropertyRename, TypeEntry, TypeEntryDetails,
+        EnumTagType, StructProperty, StructPropertyRename, StructPropertyState, TypeEntry, TypeEntryDetails,
         TypeEntryEnum, TypeEntryNative, TypeEntryNewtype, TypeEntryStruct, Variant, VariantDetails,
+        WrappedValue,
     },
     TypeId, TypeSpace,
 };
@@ -418,6 +419,13 @@ fn value_for_struct_props(
         if let Some(value) = map.get(name) {
             let type_entry = type_space.id_to_entry.get(&prop.type_id).unwrap();
             let prop_value = type_entry.output_value(type_space, value, scope)?;
+
+            Some(quote! { #name_ident: #prop_value })
+        } else if let StructPropertyState::Default(WrappedValue(prop_default)) = &prop.state {
+            // A member that is absent from the value takes its own schema
+            // default (as serde does), not the default of its Rust type.
+            let type_entry = type_space.id_to_entry.get(&prop.type_id).unwrap();
+            let prop_value = type_entry.output_value(type_space, prop_default, scope)?;
 
             Some(quote! { #name_ident: #prop_value })
         } else {
